@@ -181,6 +181,10 @@ Proof. vm_compute. repeat split; reflexivity. Qed.
 Example C15_export_cyclic_regression :
   gexport 2 [] cyclic_heap (HRef 0) = Some (GNode [([97], GBack)]).
 Proof. exact export_cyclic_example. Qed.
+Example C15_export_shared_met :
+  gexport 3 [] [[([108], HRef 1%nat); ([114], HRef 1%nat)]; [([48], HNum 1)]] (HRef 0) =
+  Some (GNode [([108], GNode [([48], GLeaf 1)]); ([114], GNode [([48], GLeaf 1)])]).
+Proof. exact export_shared_example. Qed.
 Example C15_export_acyclic_met :
   gexport 3 [] [[([97], HRef 1%nat); ([99], HNum 2)]; [([98], HNum 1)]] (HRef 0) =
   Some (GNode [([97], GNode [([98], GLeaf 1)]); ([99], GLeaf 2)]).
